@@ -37,6 +37,7 @@ type fsState struct {
 	s        *Sim
 	inject   FSInjector
 	observe  func(op *FSOp, err error)
+	pre      func(op *FSOp)
 	Touched  []string
 	recordTo bool
 	root     string
@@ -61,6 +62,11 @@ func SetFSInjector(f FSInjector) { must().fs.inject = f }
 // SetFSObserver installs a callback run after every operation (oracle hooks
 // such as "at every point the final path is absent or complete").
 func SetFSObserver(f func(op *FSOp, err error)) { must().fs.observe = f }
+
+// SetFSPreObserver installs a callback run before every operation takes
+// effect (and before fault injection), e.g. to look at a file that is about
+// to be removed.
+func SetFSPreObserver(f func(op *FSOp)) { must().fs.pre = f }
 
 // RecordTouched makes the FS layer remember every absolute path it was
 // asked to touch (C08 confinement oracle).
@@ -117,6 +123,9 @@ func fsBegin(kind, path, path2 string, n int, mut bool) (op *FSOp, act FSAction,
 				s.fs.Touched = append(s.fs.Touched, abs)
 			}
 		}
+	}
+	if s.fs.pre != nil {
+		s.fs.pre(op)
 	}
 	if s.fs.inject != nil {
 		act = s.fs.inject(op)
